@@ -243,12 +243,16 @@ PROPS['C06'] = {
               'comparisons and (strict and heterogeneous) equality on integers equal their definitions, && and || on booleans; type strictness: an Ok result implies the operator / operand-kind combination is in the '
               'table of the Biscuit specification, every combination outside it returns Err(InvalidType), and heterogeneous (in)equality on scalar operands of different kinds is Ok(false) / Ok(true). '
               'Unary::evaluate: negate, parens, and the kind table. Expression::evaluate (the stack machine): no index / pop / remove / unwrap side condition can fail for any operation sequence and any bindings, '
-              'an empty program is Err(InvalidStack).',
+              'an empty program is Err(InvalidStack). Binary::evaluate_with_closure, for all operands, closure bodies and bindings, relative to an oracle for the recursive evaluation of the closure body '
+              '(rule A4): `||` / `&&` return without evaluating the right side when the left side decides and otherwise return exactly the evaluation of the right side; all / any evaluate the body once per element, in iteration order, '
+              'with exactly the closure parameter bound to the element on top of the outer bindings, stop at the first deciding element, turn a non-boolean body into InvalidType and propagate the body\'s error; any other operator / operand / parameter-count '
+              'combination is InvalidType; the bindings are restored on every exit. Expression::evaluate establishes the no-shadowing precondition of that function (removing the shadowing test fails the call).',
     'not_covered': ['what the arms on strings, byte arrays, sets, arrays, maps and extern functions return, and their panic-freedom (rule A3: abstracted)',
-                    'Binary::evaluate_with_closure (slice patterns are outside Verus): lazy && / ||, all / any binding and the shadowing test are NOT decided', 'TemporarySymbolTable'],
+                    'the result of Expression::evaluate as a function of the program (the stack machine is proved panic-free, not functionally specified; the closure contract is relative to an oracle for it)', 'TemporarySymbolTable'],
     'assumptions': ['derived Clone / comparison traits of Term; HashMap<u32, Term> through vstd; the shadowing test expression computes `some closure parameter is already bound` (per-item rewrite)',
-                    'Binary::evaluate_with_closure: assumed to return (contract-free callee)'],
-    'level_text': 'Deductive proof for all operands of the integer / boolean / null / kind-table part of the evaluator and of the panic-freedom of the stack machine; the collection-valued arms and the closure evaluation are abstracted or assumed, so the property is decided only for the part named in the evidence.',
+                    'rule A4: the recursive evaluation of a closure body is a function of (ops, bindings, temporary-symbol-table state, extern functions); BTreeSet::iter / BTreeMap::iter enumerate a fixed sequence per collection; `Term::Array(vec![key, value])` is an uninterpreted pair term',
+                    'R21: verif_slice1 classifies a slice as empty / one element / more (its body is the slice-pattern match)'],
+    'level_text': 'Deductive proof for all operands of the integer / boolean / null / kind-table part of the evaluator and of the panic-freedom of the stack machine; the collection-valued arms are abstracted and the closure operators are proved relative to an oracle for the recursive evaluation, so the property is decided only for the part named in the evidence.',
 }
 
 # obligation pattern -> concrete witness search on the real crate (replay/src/main.rs)
@@ -261,6 +265,7 @@ WITNESS = {
     r'datalog::World::run_with_limits::loop0\.ok_facts_initial': 'tools/replay.sh facts_over_budget_at_start',
     r'Authorizer::authorize::arith': 'tools/replay.sh snapshot_iteration_underflow',
     r'World::run_with_limits::arith\[self.iterations': 'tools/replay.sh snapshot_iteration_overflow',
+    r'Expression::evaluate::call-pre\(datalog::expression::Binary::evaluate_with_closure::requires.no_shadow': 'tools/replay.sh closure_shadowing',
     r'biscuit-capi::lib::public_key_serialize::call-pre': 'tools/replay.sh capi_public_key_serialize_secp256r1',
     r'biscuit-capi::lib::biscuit_(serialize_sealed|sealed_size)::': 'tools/replay.sh capi_serialize_sealed',
     r'datalog::contains_v3_3_(term|op)::': 'tools/replay.sh schema_version_features',
